@@ -41,9 +41,25 @@ def run(ck):
     quick = ck.tier == "quick"
     traces = LC.record_samples(ck, PID)
     jobs = LC.trace_jobs(ck, traces, dev, PID)
-    LC.direction_a(ck, PID, LC.C09_INV, [], pdf_every=3 if quick else 1, pdf_scales=[1, 8], pdf_text_every=10 ** 9,
+    # the design as coded (named deviations of known findings switched on): TLC shows that it breaks the property
+    if dev:
+        jobs.append(lambda: LC.ascoded_model_run(ck, dev, ["ScaleInvariant"],
+                                                 ("ParamsOver", "OverMoves", 3, "BothTr", "PageOnly", "First1", [])))
+    # A: the intended design (Dev = {}) - all C09 invariants must hold; every completed analysis is replayed
+    LC.direction_a(ck, PID, LC.C09_INV, [], pdf_every=3 if quick else 2, pdf_scales=[1, 8], pdf_text_every=10 ** 9,
                    extra_jobs=jobs)
-    LC.finish_traces(ck, LC.extra_results())
+    xr = LC.extra_results()
+    if dev:
+        res = xr.pop()
+        ck.add_tlc(res, "as-coded design (Dev=%s) on a small space" % ",".join(dev))
+        if res.ok:
+            ck.note("as-coded specification (Dev=%s) no longer violates a C09 invariant on the small space" % dev)
+        elif res.violated == "ScaleInvariant" and "GridOrderTies" in dev:
+            ck.violation("dev:GridOrderTies", "TLC: ScaleInvariant violated on the as-coded design", None)
+        else:
+            ck.violation("model-ascoded:%s" % res.violated, "TLC: %s violated on the as-coded design" % res.violated,
+                         {"tlc": res.error_text[:4000]})
+    LC.finish_traces(ck, xr)
     ck.exhaustive = True
 
 
